@@ -9,7 +9,7 @@ TECH = "deterministic simulation with fault injection (seeded plans, SimDisk fau
 CHECKS = {
  "C08": dict(
    category="fault_enumeration",
-   text="Every crash point of the writer is executed: for each generated valid file (real Encoder and reference writer; 3 codecs + no-codec header; block partitions incl. empty and one-record blocks; 13 curated record types) ALL cut positions 0..len are read back through a SimDisk reader with plan-chosen chunking, and judged against the independent container model (records of blocks with complete payload, success iff cut is at header end or a block end) and against the fault-free read of the same file. Enumeration per file is complete; the set of files is a seeded sample.",
+   text="Every crash point of the writer is executed: for each generated valid file (real Encoder and reference writer; 3 codecs + no-codec header; block partitions incl. empty and one-record blocks; 17 curated record types) ALL cut positions 0..len are read back through a SimDisk reader with plan-chosen chunking, and judged against the independent container model (records of blocks with complete payload, success iff cut is at header end or a block end) and against the fault-free read of the same file. Enumeration per file is complete; the set of files is a seeded sample.",
    design_ref="§5 C08",
    note="Trusts the reference container parser (run on intact files only) and the prefix model of a crash. Files > 3000 bytes: boundary cuts ±1 plus 300 sampled cuts instead of all.",
    technique="deterministic simulation: writer crash at every byte (fault enumeration over crash points) + seeded file plans"),
@@ -17,7 +17,7 @@ CHECKS = {
    category="fault_enumeration",
    text="One fault per run on top of an always-run fault-free baseline: sites are enumerated from the independent container model — every bit of every sync marker incl. the header's, every bit of every snappy checksum, every bit of one block's compressed payload (quick: sampled bits), every bit of the magic, header without schema / with unknown codec names / without codec entry, callback failure at EVERY record index. Damage must be refused with earlier blocks delivered exactly and nothing past the damaged block; 'decompressor rejects' is decided by calling flate / snappy+CRC directly. The fault-free clause demands exactly the declared records equal to the written values.",
    design_ref="§5 C07",
-   note="Files are a seeded sample (13 curated types, 3 codecs + no-codec, both writers). When flate accepts an altered stream nothing is demanded (deflate has no checksum) and the read is not executed.",
+   note="Files are a seeded sample (17 curated types, 3 codecs + no-codec, both writers). When flate accepts an altered stream nothing is demanded (deflate has no checksum) and the read is not executed.",
    technique="deterministic simulation: SimDisk stored-byte faults enumerated per file from a container model + callback fault at every index"),
  "C09": dict(
    category="exploration",
@@ -51,7 +51,7 @@ CHECKS = {
    technique="deterministic simulation: seeded token scheduler over real goroutines (race-detector-invisible) + Go race detector as happens-before judge + run-alone equivalence oracle"),
  "C06": dict(
    category="exploration",
-   text="SCOPED to storage faults on valid artifacts (DESIGN §5 C06): valid files from the real Encoder and from the reference writer (13 curated types + 5 wire schemas reaching every codec kind, 3 codecs + no-codec) are damaged by 1..3 faults per case — bit flips, byte overwrites, zeroed/junk sectors, ranges stored twice or lost, truncation, read errors, structure-aware rewrites of single encoded fields (17 varint classes incl. negative/zero/max/overflowing/unterminated varints; body classes; raw and consistent variants), header varint rewrites, schema-text damage — and read through ReadFile (full, projected and empty target) and Schema.Codec+Codec.Read/Skip on damaged block bodies. Every 12th (quick: 30th) plan ENUMERATES every (field site x class x variant) of its artifact. Oracle: no panic, no worker death, CPU budget, allocation <= 16 MiB + 1024 x (input + decompressed size).",
+   text="SCOPED to storage faults on valid artifacts (DESIGN §5 C06): valid files from the real Encoder and from the reference writer (17 curated types + 7 wire schemas reaching every codec kind, 3 codecs + no-codec) are damaged by 1..3 faults per case — bit flips, byte overwrites, zeroed/junk sectors, ranges stored twice or lost, truncation, read errors, structure-aware rewrites of single encoded fields (17 varint classes incl. negative/zero/max/overflowing/unterminated varints; body classes; raw and consistent variants), header varint rewrites, schema-text damage — and read through ReadFile (full, projected and empty target) and Schema.Codec+Codec.Read/Skip on damaged block bodies. Every 12th (quick: 30th) plan ENUMERATES every (field site x class x variant) of its artifact. Oracle: no panic, no worker death, CPU budget, allocation <= 16 MiB + 1024 x (input + decompressed size).",
    design_ref="§5 C06",
    note="NOT covered: free-standing fuzzing of SchemaFromString, parseTime or Codec.Read with unrelated byte strings (pure functions of their input; not a simulation target). Known finding D11 (unbounded count of zero-width items) is recorded by input class in known_findings.json; a hang / OOM outside that input class is still reported.",
    technique="deterministic simulation: SimDisk stored-byte / torn-write / read-error faults and structure-aware single-field rewrites on valid artifacts; child-process workers with CPU and allocation oracles"),
